@@ -106,9 +106,10 @@ LeafCheck(alts, s, T) ==
 
 RECURSIVE CheckAnswers(_, _, _, _, _), CheckList(_, _, _, _, _)
 
-\* certs: NoCert, or a sequence with one certificate [u, v, m, D] per answer list (top level, table subgrader only)
+\* certs: NoCert, or [k |-> "some", list |-> one certificate [k |-> "cert", u, v, m, D] per answer list] (used for
+\* the top level of a flat unordered list only)
 CheckAnswers(g, ans, text, T, certs) ==
-  LET rs == [l \in DOMAIN ans |-> CheckList(g, ans[l], text, T, IF certs = NoCert THEN NoCert ELSE certs[l])]
+  LET rs == TLCEval([l \in DOMAIN ans |-> CheckList(g, ans[l], text, T, IF certs.k = "none" THEN NoCert ELSE certs.list[l])])
       bad == {l \in DOMAIN ans : rs[l].k # "ok"}
   IN IF bad # {} THEN rs[CHOOSE l \in bad : \A m \in bad : l <= m]
      ELSE LET best == RMaxSet({rs[l].g : l \in DOMAIN ans})
@@ -124,9 +125,10 @@ CheckList(g, al, text, T, cert) ==
       nS == Len(subs)
       k == Min2(nE, nS)
       n == Max2(nE, nS)
-      Cell == [i \in 1..nE |-> [j \in 1..nS |->
+      \* (TLCEval: evaluate the matrix once instead of at every use)
+      Cell == TLCEval([i \in 1..nE |-> TLCEval([j \in 1..nS |->
                  IF g.sub.k = "table" THEN LeafCheck(al.items[i], subs[j], T)
-                 ELSE CheckAnswers(g.sub, al.items[i], subs[j], T, NoCert)]]
+                 ELSE CheckAnswers(g.sub, al.items[i], subs[j], T, NoCert)])])
       \* which cells the statement certainly requires to be looked at: all of them when unordered, the diagonal
       \* when ordered
       needed == IF g.ordered THEN {<<a, a>> : a \in 1..k} ELSE (1..nE) \X (1..nS)
@@ -136,24 +138,24 @@ CheckList(g, al, text, T, cert) ==
       \* cells that raise and are not needed (off the diagonal of an ordered list) play no role: credit 0
       GOf(i, j) == IF Cell[i][j].k = "ok" THEN Cell[i][j].g ELSE Zero
       D == LcmSet({GOf(i, j)[2] : i \in 1..nE, j \in 1..nS})
-      Wi == [i \in 1..nE |-> [j \in 1..nS |-> Units(GOf(i, j), D)]]
-      A == [a \in 1..k |-> [b \in 1..n |-> IF nE <= nS THEN Wi[a][b] ELSE Wi[b][a]]]
+      Wi == TLCEval([i \in 1..nE |-> TLCEval([j \in 1..nS |-> Units(GOf(i, j), D)])])
+      A == TLCEval([a \in 1..k |-> TLCEval([b \in 1..n |-> IF nE <= nS THEN Wi[a][b] ELSE Wi[b][a]])])
       AwCell(i, j) == IF Cell[i][j].k = "ok" THEN Cell[i][j].aw ELSE {FALSE}
       AwC(a, b) == IF nE <= nS THEN AwCell(a, b) ELSE AwCell(b, a)
       awOf(f) == IF nE # nS THEN {FALSE} ELSE AwOfCells({AwC(a, f[a]) : a \in 1..k})
       ident == [a \in 1..k |-> a]
       bestI == IF g.ordered THEN SumF(A, ident, k)
-               ELSE IF cert = NoCert THEN BestTotal(A, k, n)
+               ELSE IF cert.k = "none" THEN BestTotal(A, k, n)
                ELSE CertBest(Wi, nE, nS, D, cert)
       aw == IF g.ordered THEN awOf(ident)
-            ELSE IF cert = NoCert THEN UNION {awOf(f) : f \in OptimalAssignments(A, k, n)}
+            ELSE IF cert.k = "none" THEN UNION {awOf(f) : f \in OptimalAssignments(A, k, n)}
             ELSE awOf([a \in 1..k |-> IF nE <= nS THEN cert.m[a]
                                       ELSE CHOOSE i \in 1..n : cert.m[i] = a])
       grade == ListGrade(Q(bestI, D), nE, nS, g.partial, al.credit)
   IN IF g.lengthErr /\ nE # nS THEN Raise("length")
      ELSE IF g.missingErr /\ \E j \in 1..nS : IsBlank(subs[j]) THEN Raise("blank")
      ELSE IF failing # {} THEN Raise("inner")
-     ELSE IF ~g.ordered /\ cert # NoCert /\ (cert.D # D \/ ~CertOK(Wi, nE, nS, D, cert)) THEN Raise("badcert")
+     ELSE IF ~g.ordered /\ cert.k # "none" /\ (cert.D # D \/ ~CertOK(Wi, nE, nS, D, cert)) THEN Raise("badcert")
      ELSE [k |-> "ok", g |-> grade, aw |-> aw, shown |-> {FALSE}, latent |-> latent]
 
 (* ------------------------------------------------------------------ answers given as text
@@ -173,11 +175,11 @@ Infer(g, atext) ==
                                                  list in a surplus position of an ordered list: the statement does
                                                  not say whose missing_error applies)                          *)
 AnswersOf(P) == IF P.form = "list" THEN P.ans ELSE Infer(P.g, P.atext)
-OutcomeC(P, text, certs) ==
-  LET r == CheckAnswers(P.g, AnswersOf(P), text, TabFun(P.tab), certs)
+OutcomeT(P, T, text, certs) ==
+  LET r == CheckAnswers(P.g, AnswersOf(P), text, T, certs)
   IN IF r.k = "raise" THEN [k |-> "raise", why |-> r.why, g |-> Zero, ok |-> "F", shown |-> {}]
      ELSE [k |-> IF r.latent THEN "either" ELSE "graded", why |-> "none", g |-> r.g, ok |-> OkOf(r.g), shown |-> r.shown]
-Outcome(P, text) == OutcomeC(P, text, NoCert)
+Outcome(P, text) == OutcomeT(P, TabFun(P.tab), text, NoCert)
 
 (* ------------------------------------------------------------------ laws about the specification itself *)
 \* splitting and joining are inverse; no piece contains the delimiter; one-symbol delimiters agree with Text!Split
